@@ -5,6 +5,7 @@ package main
 // shrinks failing cases and writes replay files and a JSON summary.
 
 import (
+	"bytes"
 	"encoding/json"
 	"flag"
 	"fmt"
@@ -621,6 +622,9 @@ func superviseMode(prop, modeName, tier string, seed uint64, outPath, replayDir,
 	args := []string{"work", "-prop", prop, "-mode", modeName, "-tier", tier, "-seed", fmt.Sprint(seed), "-out", outPath, "-replays", replayDir, "-known", knownPath, "-progress", prog.Name()}
 	cmd := exec.Command(self, args...)
 	cmd.Stdout = os.Stdout
+	// under the race detector the process stops at the first race, so that the cases in flight
+	// at that moment are known (the default is to go on and exit with 66 at the end)
+	cmd.Env = append(os.Environ(), "GORACE=halt_on_error=1")
 	err := cmd.Run()
 	code := 0
 	if err != nil {
@@ -665,19 +669,39 @@ func superviseMode(prop, modeName, tier string, seed uint64, outPath, replayDir,
 		if idx < 0 {
 			idx = (1 << 20) + (-1 - idx)
 		}
-		c := exec.Command(self, "work", "-prop", prop, "-mode", modeName, "-tier", tier, "-seed", fmt.Sprint(seed), "-only", fmt.Sprint(idx), "-replays", os.TempDir(), "-known", knownPath)
-		e := c.Run()
+		// a schedule-dependent death (a data race, a panic that needs an interleaving) may need
+		// more than one attempt to show again
 		cc := 0
-		if e != nil {
-			cc = -1
-			if ee, ok := e.(*exec.ExitError); ok {
-				cc = ee.ExitCode()
+		report := ""
+		for attempt := 0; attempt < 3; attempt++ {
+			c := exec.Command(self, "work", "-prop", prop, "-mode", modeName, "-tier", tier, "-seed", fmt.Sprint(seed), "-only", fmt.Sprint(idx), "-replays", os.TempDir(), "-known", knownPath)
+			c.Env = append(os.Environ(), "GORACE=halt_on_error=1")
+			var eb bytes.Buffer
+			c.Stderr = &eb
+			e := c.Run()
+			cc = 0
+			if e != nil {
+				cc = -1
+				if ee, ok := e.(*exec.ExitError); ok {
+					cc = ee.ExitCode()
+				}
+			}
+			if cc != 0 && cc != 1 && cc != 3 {
+				report = eb.String()
+				break
 			}
 		}
 		if cc != 0 && cc != 1 && cc != 3 {
 			found = filepath.Join(replayDir, fmt.Sprintf("%s-crash-%d-%d.trace", prop, seed, idx))
 			d, _ := exec.Command(self, "dump", "-prop", prop, "-mode", modeName, "-tier", tier, "-seed", fmt.Sprint(seed), "-only", fmt.Sprint(idx)).Output()
-			os.WriteFile(found, append([]byte(fmt.Sprintf("# replay prop=%s mode=%s seed=%d case=%d tier=%s keep=\n# the process running the code under test died (exit %d; a panic, or a data race under the race detector) while executing this case alone\n", prop, modeName, seed, idx, tier, cc)), d...), 0o644)
+			hdr := fmt.Sprintf("# replay prop=%s mode=%s seed=%d case=%d tier=%s keep=\n# the process running the code under test died (exit %d; a panic, or a data race under the race detector) while executing this case alone\n", prop, modeName, seed, idx, tier, cc)
+			if len(report) > 6000 {
+				report = report[:6000]
+			}
+			for _, l := range strings.Split(strings.TrimSpace(report), "\n") {
+				hdr += "# | " + l + "\n"
+			}
+			os.WriteFile(found, append([]byte(hdr), d...), 0o644)
 			break
 		}
 	}
